@@ -24,6 +24,20 @@ CHECKS = {
          'inputs are those the public in-place API produces (with d=1 the kernel sees arbitrary charge vectors chosen by the session); integer-typed input is outside the property and skipped'),
  'C12': ('6 C12', 'call-boundary monitors on every split_matrix_svd / retained_bond_indices call issued during sessions (compress, two-site TDVP/DMRG, split_mps_tensor with the three distributions, from_vector) with SVDPHASE/SVDROT/TIEORDER/ULP injected underneath',
          'threshold decisions within a 1e-9 guard band of the tolerance are skipped and counted'),
+ 'C05': ('6 C05', 'from_opchains programs are compiled and compared exactly (Fraction coefficients, both traversal directions) with the sum of identity-padded chains; MPO.from_opgraph is applied to any graph of the pool, in particular graphs reached through rewrite histories, and compared densely under seeded charge-consistent operator maps, incl. bond charges and the node map',
+         'first clause is seeded program generation only (no history or seam in it); coefficients are dyadic so that all arithmetic is exact'),
+ 'C14': ('6 C14', 'Lanczos/Arnoldi driven by a simulated user callback (fresh / returns its argument / reused buffer / read-only result) on session matrices with exact invariant subspaces, plus monitors on every Lanczos call TDVP and DMRG issue; classification into regular / exhausted / grey by a re-orthogonalised reference',
+         'maps scaled to ||A|| in [0.25, 8] (the breakdown threshold is absolute); grey-zone cases and Lanczos vectors beyond the first Ritz convergence (Paige) are skipped and counted'),
+ 'C15': ('6 C15', 'eigh_krylov / expm_krylov (both branches) under the same simulated callbacks and EIGSIGN/ULP faults, plus monitors on the Krylov calls of TDVP/DMRG: Ritz bounds, norm preservation, exactness once the Krylov space is exhausted',
+         'same input class as C14; clauses that presuppose an orthonormal basis are not judged when the routine ran past exhaustion on a noise direction'),
+ 'C16': ('6 C16', 'rewrite histories (simplify, merge_edges, rename_*, add with id collisions and self-addition, flip, deepcopy) on graphs from all constructors vs the exact polynomial model after every step; consistency, size monotonicity and idempotence of simplify; other graph untouched by add',
+         'pure history property: no environment seam applies (no LAPACK, no callbacks)'),
+ 'C17': ('6 C17', 'from_optrees / from_automaton programs (incl. site-dependent callables recorded by the simulator) vs the symbolic path sum, exactly; dense meaning of chains, trees and of any graph of the pool (after rewrite histories) vs the symbolic meaning under seeded operator maps',
+         'first two clauses are seeded program generation only; automata without an accepting path are outside the property and skipped'),
+ 'C19': ('6 C19', 'around every op of long mixed histories in both worlds: byte snapshots of every live object except the documented target; scribble test on every returned MPS/MPO/graph; write-protected operands (WPROT); injected backend failures (RAISE) inside in-place ops; shared-object identity checks for graphs',
+         'literal scope: returned plain arrays/scalars are not covered by the no-sharing clause; OpGraph(nodes, edges) adopts the objects it is given by design'),
+ 'C20': ('6 C20', 'bond dimensions of model Hamiltonians built inside sessions vs numerical operator-Schmidt ranks of the dense model; layer widths of from_opchains graphs vs number of non-zero chains; widths across every simplify of rewrite histories',
+         'clause 1 is seeded parameter generation with an independent numerical oracle (clean rank gap required, else skipped)'),
  'C13': ('6 C13', 'compress / from_vector transitions inside histories vs the dense model: returned norm, scale range, canonical form, bond monotonicity, exact error identity (squared form), first-cut count with guard band, tol=0 exactness',
          'states with cancellation (scale/norm > 1e5) are skipped and counted'),
 }
@@ -32,7 +46,7 @@ NA = {
  'C07': 'pure function of (L, coefficient tensors, optimize flag, rotation): no state, history or seam in any clause (DESIGN 6, C07)',
  'C18': 'pure combinatorial function of a bipartite graph; no state or seam, and its own quantifier asks for exhaustive enumeration of small scopes, which is model checking, not this technique (DESIGN 6, C18)',
 }
-PENDING = {k: 'check under construction in this round (claimed in DESIGN 6 %s; will move to checks when built)' % k for k in ('C05','C14','C15','C16','C17','C19','C20')}
+PENDING = {}
 
 def main():
     checks = []
